@@ -253,6 +253,17 @@ func cases(quick bool) []caseT {
 	c.Plugins = []plugSpec{ok("p1", map[string]string{"shared/x.txt": "1", "p1/own.txt": "o"}), ok("p2", map[string]string{"shared/x.txt": "2"})}
 	c.WantFail, c.Hostile = true, true
 	out = append(out, c)
+	// the same path under another spelling (dot segment, doubled separator): still the same file
+	for _, sp := range []string{"./a/a.go", "a//a.go", "a/./a.go", ".//a/a.go"} {
+		c = base("plugin path " + sp + " names the core-generated file a/a.go")
+		c.Plugins = []plugSpec{ok("p1", map[string]string{sp: "x"})}
+		c.WantFail, c.Hostile, c.Sentinels = true, true, true
+		out = append(out, c)
+		c = base("two plugins produce one file under the spellings shared/x.txt and " + strings.Replace(sp, "a/a.go", "shared/x.txt", 1))
+		c.Plugins = []plugSpec{ok("p1", map[string]string{"shared/x.txt": "1"}), ok("p2", map[string]string{strings.Replace(sp, "a/a.go", "shared/x.txt", 1): "2"})}
+		c.WantFail, c.Hostile = true, true
+		out = append(out, c)
+	}
 	// the same conflicts with further, harmless files around the conflicting path
 	// (names sorting before and after it): the verdict must not depend on which file
 	// of a response happens to be merged last
